@@ -135,8 +135,10 @@ def parse_source(path, adts, impls):
                 adt.fields = _parse_fields(body, opener == '(')
             else:
                 nxt = 0
-                for item in _split_top(_strip_attrs(body)):
-                    item = item.strip()
+                for item in _split_top(body):
+                    if re.search(r'#\[cfg\(feature', item):
+                        continue  # feature-gated variant: the verified build has no cargo features enabled
+                    item = _strip_attrs(item).strip()
                     if not item:
                         continue
                     mv = re.match(r'^(\w+)\s*(?:(\(.*\))|(\{.*\}))?\s*(?:=\s*(.+))?$', item, re.S)
